@@ -219,6 +219,8 @@ package completion
 //@   requires evalid(e)
 //@   assigns *e.line, e.cursor.pos, e.cursor.mark, e.sm
 //@   ensures [no-matcher-no-edit] old(len(e.sm.string)) == 0 ==> *e.line == old(*e.line) && e.cursor.pos == old(e.cursor.pos)
+//@   ensures @C14 [elsewhere-no-edit] old(e.sm.pos) != old(e.cursor.pos) - 1 ==> *e.line == old(*e.line) && e.cursor.pos == old(e.cursor.pos)
+//@   ensures @C14 [orphan-dropped] old(len(*e.line)) > 0 && old(e.cursor.pos) > 0 && old(len(e.selected.Value)) == 0 && old(e.sm.pos) != old(e.cursor.pos) - 1 ==> len(e.sm.string) == 0
 
 //@ func (*Engine).NonIncrementallySearching
 //@   props C02 C01
@@ -233,3 +235,29 @@ package completion
 //@   requires line != nil && core.cvalid(cur) && cur.line == line && clean(*line)
 //@   assigns *line, cur.pos, cur.mark
 //@   ensures [not-a-pair-char] !(key == '{' || key == '}' || key == '(' || key == ')' || key == '[' || key == ']' || key == '<' || key == '"' || key == '\'') ==> !result && *line == old(*line) && cur.pos == old(cur.pos) && cur.mark == old(cur.mark)
+
+// ---------------------------------------------------------------------------------------
+// C15 / C01: Select, the entry point of every menu movement (plain grids).  ginv is the shape every group
+// built by initCompletionsGrid has (gridok without the "at least one row" part: isearch can empty a group).
+//@ pred ginv(g *group) = g != nil && !g.aliased && g.maxY == len(g.rows) && all(k, 0, len(g.rows), len(g.rows[k]) >= 1) && ((g.posX == -1 && g.posY == -1) || len(g.rows) == 0 || oncell(g))
+
+//@ func (*Engine).cycleNextGroup
+//@   trusted recursion through currentGroup, not proved; terminates because some group has rows (its precondition)
+//@   requires e != nil && all(k, 0, len(e.groups), e.groups[k] != nil) && any(k, 0, len(e.groups), len(e.groups[k].rows) > 0)
+//@   assigns anyof("group", "isCurrent")
+//@   ensures any(k, 0, len(e.groups), e.groups[k].isCurrent) && all(k, 0, len(e.groups), e.groups[k].isCurrent ==> len(e.groups[k].rows) > 0)
+
+//@ func (*Engine).cyclePreviousGroup
+//@   trusted recursion through currentGroup, not proved; terminates because some group has rows (its precondition)
+//@   requires e != nil && all(k, 0, len(e.groups), e.groups[k] != nil) && any(k, 0, len(e.groups), len(e.groups[k].rows) > 0)
+//@   assigns anyof("group", "isCurrent")
+//@   ensures any(k, 0, len(e.groups), e.groups[k].isCurrent) && all(k, 0, len(e.groups), e.groups[k].isCurrent ==> len(e.groups[k].rows) > 0)
+
+//@ func (*Engine).refreshLine
+//@   trusted the insertion of the selected candidate is C14's subject (insertCandidate / acceptCandidate under their own hypotheses); here only that it is called
+//@   requires e != nil
+
+//@ func (*Engine).Select
+//@   props C15 C01
+//@   requires evalid(e) && keymap.kmvalid(e.keymap) && all(k, 0, len(e.groups), ginv(e.groups[k]))
+//@   requires [unit-step] (row == 0 || column == 0) && -1 <= row && row <= 1 && -1 <= column && column <= 1
